@@ -1214,3 +1214,89 @@ Proof.
     inversion V; subst. apply IH. reflexivity.
   - inversion V; subst. destruct (cast_all_errors _ _ _ C) as [-> | ->]; reflexivity.
 Qed.
+
+(* ------------------------------------------------------------------ a simpler sufficient guard for the symbols round trip *)
+Definition idx_small (o : option pidx) : bool :=
+  match o with None => true | Some (IInt z) => Z.abs z <=? two53 | Some (IStr _) => false end.
+Definition sym_small (ss : list symbol) : bool :=
+  forallb (fun s => idx_small (slags s) && idx_small (sleads s)) ss.
+
+Lemma idx_small_col os : forallb idx_small os = true -> idx_col_ok os = true.
+Proof.
+  intros H. unfold idx_col_ok. apply andb_true_iff. split.
+  - apply forallb_forall. intros o Ho. rewrite forallb_forall in H. specialize (H o Ho).
+    destruct o as [[z|s]|]; cbn [idx_small idx_ok] in *; try discriminate; try reflexivity.
+    unfold in_int64, int64_min, int64_max. apply Z.leb_le in H. unfold two53 in H. apply andb_true_iff. split; apply Z.leb_le; lia.
+  - apply orb_true_iff. right. apply forallb_forall. intros o Ho. rewrite forallb_forall in H. specialize (H o Ho).
+    destruct o as [[z|s]|]; cbn [idx_small idx_exact] in *; try discriminate; auto.
+Qed.
+
+Lemma sym_small_wf ss : sym_small ss = true -> sym_wf ss = true.
+Proof.
+  intros H. unfold sym_small in H. rewrite forallb_forall in H. unfold sym_wf. apply andb_true_iff. split; apply idx_small_col;
+    apply forallb_forall; intros o Ho; apply in_map_iff in Ho as [s [<- Hs]]; specialize (H s Hs); apply andb_true_iff in H; tauto.
+Qed.
+
+Lemma symbols_roundtrip_small ss : sym_small ss = true -> symbols_roundtrip ss = TOk ss.
+Proof. intros H. apply symbols_roundtrip_ok. apply sym_small_wf. assumption. Qed.
+
+(* ------------------------------------------------------------------ linker export without the name guard: what exactly happens *)
+Fixpoint lookup_cell {V} (k : cell) (d : list (cell * V)) : option V :=
+  match d with [] => None | (k', v) :: r => if cell_eqb k k' then Some v else lookup_cell k r end.
+
+Lemma lookup_cell_none {V} k (d : list (cell * V)) : ~ In k (map fst d) -> lookup_cell k d = None.
+Proof.
+  induction d as [|[k' v] r IH]; intros H; [reflexivity|]. cbn [lookup_cell].
+  destruct (cell_eqb k k') eqn:E.
+  - apply cell_eqb_eq in E. exfalso. apply H. left. symmetry; assumption.
+  - apply IH. intros H'. apply H. right; assumption.
+Qed.
+
+Lemma linker_subs_general st it ii (tab : fmodel -> table) n subs : forall x accr,
+  NoDup (map fst subs) ->
+  ~ In n (map fst accr) ->
+  (forall k, In k (map fst subs) -> ~ In k (map fst accr)) ->
+  (forall k m, In (k, m) subs -> model_to_table st it ii m = TOk (tab m)) ->
+  linker_subs st it ii subs ((n, x) :: accr)
+  = TOk ((n, match lookup_cell n subs with Some m => tab m | None => x end)
+         :: accr ++ map (fun km => (fst km, tab (snd km))) (filter (fun km => negb (cell_eqb (fst km) n)) subs)).
+Proof.
+  induction subs as [|[k m] r IH]; intros x accr Hnd Hn Hdis Htab.
+  - cbn [linker_subs lookup_cell filter map]. rewrite app_nil_r. reflexivity.
+  - cbn [linker_subs]. rewrite (Htab k m (or_introl eq_refl)). cbn [tbind].
+    cbn [map fst] in Hnd, Hdis. inversion Hnd as [|? ? Hk Hr]; subst.
+    cbn [dset lookup_cell filter fst].
+    destruct (cell_eqb k n) eqn:E.
+    + apply cell_eqb_eq in E. subst k. rewrite (proj2 (cell_eqb_eq n n) eq_refl). cbn [negb].
+      rewrite IH; try assumption.
+      * rewrite (lookup_cell_none n r Hk). reflexivity.
+      * intros k' Hk'. apply Hdis. right; assumption.
+      * intros k' m' H. apply (Htab k'). right; assumption.
+    + assert (E' : cell_eqb n k = false).
+      { apply cell_eqb_neq. intros ->. rewrite (proj2 (cell_eqb_eq k k) eq_refl) in E. discriminate. }
+      rewrite E'. cbn [negb map fst snd].
+      rewrite dset_append by (apply Hdis; left; reflexivity).
+      rewrite IH; try assumption.
+      * rewrite <- app_assoc. reflexivity.
+      * rewrite map_app. cbn [map fst]. intros H. apply in_app_or in H as [H|[H|[]]]; [contradiction|].
+        subst. rewrite (proj2 (cell_eqb_eq n n) eq_refl) in E. discriminate.
+      * intros k' Hk'. rewrite map_app. cbn [map fst]. intros H. apply in_app_or in H as [H|[H|[]]].
+        -- apply (Hdis k'); [right; assumption|assumption].
+        -- subst. contradiction.
+      * intros k' m' H. apply (Htab k'). right; assumption.
+Qed.
+
+Lemma linker_to_tables_general st it ii (tab : fmodel -> table) l :
+  NoDup (map fst (lsubs l)) ->
+  model_to_table st it ii (lmodel l) = TOk (tab (lmodel l)) ->
+  (forall k m, In (k, m) (lsubs l) -> model_to_table st it ii m = TOk (tab m)) ->
+  linker_to_tables st it ii l
+  = TOk ((lname l, tab (match lookup_cell (lname l) (lsubs l) with Some m => m | None => lmodel l end))
+         :: map (fun km => (fst km, tab (snd km))) (filter (fun km => negb (cell_eqb (fst km) (lname l))) (lsubs l))).
+Proof.
+  intros Hnd H0 Hsubs. unfold linker_to_tables. rewrite H0. cbn [tbind].
+  rewrite (linker_subs_general st it ii tab (lname l) (lsubs l) (tab (lmodel l)) []); try assumption.
+  - cbn [app]. destruct (lookup_cell (lname l) (lsubs l)); reflexivity.
+  - intros [].
+  - intros k _ [].
+Qed.
